@@ -395,7 +395,8 @@ def evaluate__lang(self: XPathFunction, context: ta.ContextType = None) -> bool:
         try:
             attr = context.item.value.attrib[XML_LANG]
         except KeyError:
-            for e in context.iter_ancestors():
+            # the nearest ancestor that has the attribute (the axis is iterated in document order)
+            for e in reversed(list(context.iter_ancestors())):
                 if isinstance(e, EtreeElementNode) and XML_LANG in e.value.attrib:
                     lang = e.value.attrib[XML_LANG]
                     if not isinstance(lang, str):
@@ -408,13 +409,12 @@ def evaluate__lang(self: XPathFunction, context: ta.ContextType = None) -> bool:
                 return False
             lang = attr.strip()
 
-        if '-' in lang:
-            lang, _ = lang.split('-')
-
         value = self[0].evaluate()
         if not isinstance(value, str):
             return False
-        return lang.lower() == value.lower()
+        # true if equal or if the argument is a prefix of the language followed by a hyphen
+        lang, value = lang.lower(), value.lower()
+        return lang == value or lang.startswith(value + '-')
 
 
 ###
